@@ -797,3 +797,70 @@ Proof.
          [s "a"; s "b"], [([], s "x"); ([s "a"], s "x")].
   splits; [reflexivity|left; reflexivity|vm_compute; discriminate].
 Qed.
+
+(* ------------------------------------------------------------------ reader: un-flattening *)
+Lemma join_snoc_slash : forall p n, p <> [] -> join [slash] (p ++ [n]) = join [slash] p ++ [slash] ++ n.
+Proof.
+  induction p as [|a p IH]; intros n NE; [contradiction|]. destruct p as [|b p].
+  - reflexivity.
+  - change ((a :: b :: p) ++ [n]) with (a :: b :: (p ++ [n])). rewrite join_cons2.
+    change (b :: p ++ [n]) with ((b :: p) ++ [n]). rewrite IH by discriminate.
+    rewrite join_cons2. rewrite <- !app_assoc. reflexivity.
+Qed.
+
+Lemma pathname_abs : forall p n, p <> [] -> pathname p n = abs_name p n.
+Proof.
+  intros p n NE. destruct p as [|a p]; [contradiction|].
+  unfold pathname, group_path. rewrite abs_name_cons.
+  change (a :: p ++ [n]) with ((a :: p) ++ [n]). rewrite join_snoc_slash by discriminate.
+  reflexivity.
+Qed.
+
+Lemma strip_prefix_app : forall p x, strip_prefix p (p ++ x) = x.
+Proof.
+  intros. unfold strip_prefix. rewrite starts_with_app.
+  induction p; simpl; [reflexivity|assumption].
+Qed.
+
+(* the reader recovers the group path, the recorded name and the basename of every element
+   from one entry "flat: absolute" of the mapping attributes *)
+Lemma unflatten_var_spec : forall hash p n,
+  free slash (p ++ [n]) -> short p n ->
+  unflatten_var (flat_name hash p n) (pathname p n) =
+    (p, match p with [] => n | _ => pathname p n end, n).
+Proof.
+  intros hash p n F S. assert (Fp : free slash p /\ mem_chr slash n = false).
+  { unfold free in *. apply Forall_app in F as [F1 F2]. inversion F2; subst. split; assumption. }
+  destruct Fp as [Fp Fn]. destruct p as [|a p].
+  - unfold unflatten_var, pathname. simpl flat_name.
+    change (slash :: n) with ([] ++ slash :: n). rewrite split_on_app by reflexivity.
+    rewrite split_on_free by assumption. reflexivity.
+  - unfold unflatten_var. rewrite pathname_abs by discriminate.
+    rewrite split_abs_name by assumption. rewrite mid_cons_snoc.
+    assert (E : flat_name hash (a :: p) n = (join sep2 (a :: p) ++ sep2) ++ n).
+    { rewrite flat_name_short by assumption. rewrite join_snoc2 by discriminate. rewrite <- app_assoc. reflexivity. }
+    rewrite E, strip_prefix_app. reflexivity.
+Qed.
+
+Lemma unflatten_dim_spec : forall hash p n,
+  free slash (p ++ [n]) -> short p n ->
+  unflatten_dim_gen true (flat_name hash p n) (pathname p n) =
+    (p, match p with [] => n | _ => pathname p n end, n).
+Proof.
+  intros hash p n F S. assert (Fp : free slash p /\ mem_chr slash n = false).
+  { unfold free in *. apply Forall_app in F as [F1 F2]. inversion F2; subst. split; assumption. }
+  destruct Fp as [Fp Fn]. destruct p as [|a p].
+  - unfold unflatten_dim_gen, pathname. simpl flat_name.
+    simpl starts_with. rewrite Ascii.eqb_refl. simpl andb.
+    simpl count_chr. rewrite Ascii.eqb_refl. rewrite count_chr_free by assumption. simpl Nat.eqb. cbv iota.
+    simpl tl. rewrite split_on_free by assumption. reflexivity.
+  - unfold unflatten_dim_gen. rewrite pathname_abs by discriminate.
+    destruct (abs_name_shape a p n) as [pre E]. 
+    assert (C : Nat.eqb (count_chr slash (abs_name (a :: p) n)) 1 = false).
+    { rewrite E. apply Nat.eqb_neq. simpl count_chr. rewrite Ascii.eqb_refl, count_chr_app. simpl count_chr.
+      rewrite Ascii.eqb_refl. lia. }
+    rewrite C, andb_false_r. rewrite split_abs_name by assumption. rewrite mid_cons_snoc.
+    assert (E2 : flat_name hash (a :: p) n = (join sep2 (a :: p) ++ sep2) ++ n).
+    { rewrite flat_name_short by assumption. rewrite join_snoc2 by discriminate. rewrite <- app_assoc. reflexivity. }
+    rewrite E2, strip_prefix_app. reflexivity.
+Qed.
